@@ -451,6 +451,7 @@ type GenCfg struct {
 	SymArrays  bool // arrays over a 3-symbol alphabet
 	Fractions  bool
 	Big        bool // pad to >= 10 KiB
+	Huge       bool // one sub-document above 64 KiB (a single line of a native diff when it is removed)
 	NumLikeKey bool // allow keys that look like numbers / "-"
 	YAMLFloats bool // allow .inf / .nan (only meaningful for YAML carriers)
 }
@@ -598,6 +599,15 @@ func genDoc(c *Chooser, g GenCfg) *Val {
 		}
 	default:
 		v = genScalar(c, g)
+	}
+	if g.Huge && v.K == 'o' {
+		// never a string: rendering a string-to-string replacement runs an
+		// O(n*m) character LCS, a performance cliff the simulator is not about
+		pad := &Val{K: 'a'}
+		for i := 0; i < 6200; i++ {
+			pad.Elems = append(pad.Elems, vs("huge-"+strconv.Itoa(i%91)))
+		}
+		v.set("huge", pad)
 	}
 	if g.Big && v.K == 'o' {
 		pad := &Val{K: 'a'}
@@ -855,8 +865,8 @@ func editable(v *Val, protectIDs bool, out []*Val) []*Val {
 	case 'o':
 		out = append(out, v)
 		for i, x := range v.Vals {
-			if protectIDs && v.Keys[i] == "id" {
-				continue
+			if protectIDs && v.Keys[i] == "id" || v.Keys[i] == "huge" || v.Keys[i] == "pad" {
+				continue // identities stay unique; bulk padding is not edited element by element
 			}
 			out = editable(x, protectIDs, out)
 		}
